@@ -9,6 +9,7 @@ class ConnInfo(object):
         self.idx, self.a = idx, a
         self.i_build = None
         self.connect_calls = []      # api events
+        self.n_connects = 0          # CONNECT packets written (more than one: connect() again after a refusal)
         self.i_connect_write = None  # index of the CONNECT pkt event
         self.t_connect = None
         self.connect_pkt = None
@@ -165,6 +166,8 @@ class Analysis(object):
                 c.pkts.append(e)
                 self.pkts.append(e)
                 p = e["pkt"]
+                if p is not None and p["t"] == "CONNECT":
+                    c.n_connects += 1
                 if p is not None and p["t"] == "CONNECT" and c.i_connect_write is None:
                     c.i_connect_write = e["i"]
                     c.t_connect = e["t"]
